@@ -82,6 +82,7 @@ namespace awkward {
     void null() { writer_.Null(); }
     void boolean(bool x) { writer_.Bool(x); }
     void integer(int64_t x) { writer_.Int64(x); }
+    void uinteger(uint64_t x) { writer_.Uint64(x); }
     void real(double x) { writer_.Double(x); }
     void complex(std::complex<double> x,
                  const char* complex_real_string,
@@ -143,6 +144,11 @@ namespace awkward {
   void
   ToJsonString::integer(int64_t x) {
     impl_->integer(x);
+  }
+
+  void
+  ToJsonString::uinteger(uint64_t x) {
+    impl_->uinteger(x);
   }
 
   void
@@ -223,6 +229,7 @@ namespace awkward {
     void null() { writer_.Null(); }
     void boolean(bool x) { writer_.Bool(x); }
     void integer(int64_t x) { writer_.Int64(x); }
+    void uinteger(uint64_t x) { writer_.Uint64(x); }
     void real(double x) { writer_.Double(x); }
     void complex(std::complex<double> x,
                  const char* complex_real_string,
@@ -284,6 +291,11 @@ namespace awkward {
   void
   ToJsonPrettyString::integer(int64_t x) {
     impl_->integer(x);
+  }
+
+  void
+  ToJsonPrettyString::uinteger(uint64_t x) {
+    impl_->uinteger(x);
   }
 
   void
@@ -368,6 +380,7 @@ namespace awkward {
     void null() { writer_.Null(); }
     void boolean(bool x) { writer_.Bool(x); }
     void integer(int64_t x) { writer_.Int64(x); }
+    void uinteger(uint64_t x) { writer_.Uint64(x); }
     void real(double x) { writer_.Double(x); }
     void complex(std::complex<double> x,
                  const char* complex_real_string,
@@ -429,6 +442,11 @@ namespace awkward {
   void
   ToJsonFile::integer(int64_t x) {
     impl_->integer(x);
+  }
+
+  void
+  ToJsonFile::uinteger(uint64_t x) {
+    impl_->uinteger(x);
   }
 
   void
@@ -508,6 +526,7 @@ namespace awkward {
     void null() { writer_.Null(); }
     void boolean(bool x) { writer_.Bool(x); }
     void integer(int64_t x) { writer_.Int64(x); }
+    void uinteger(uint64_t x) { writer_.Uint64(x); }
     void real(double x) { writer_.Double(x); }
     void complex(std::complex<double> x,
                  const char* complex_real_string,
@@ -571,6 +590,11 @@ namespace awkward {
   void
   ToJsonPrettyFile::integer(int64_t x) {
     impl_->integer(x);
+  }
+
+  void
+  ToJsonPrettyFile::uinteger(uint64_t x) {
+    impl_->uinteger(x);
   }
 
   void
